@@ -36,6 +36,11 @@ HEADER = ("global_options(['-DGLOBAL_C=1'], lang='c')\n"
           "' ENVE'], environment={'VV_ONE': '2'})\n"
           "envstep = build_step('envstep.txt', cmd=[R, 'ENVF', "
           "'--verif-touch=envstep.txt'], environment={'VV_THREE': '3'})\n"
+          # several commands without an environment that share one shell: a
+          # change of directory and a shell variable carry over to the next
+          "command('cdstep', cmds=[['mkdir', '-p', 'wk dir'], ['cd', 'wk dir'],"
+          " [R, 'CDA']])\n"
+          "command('shvar', cmds=['VV_SH=\"a b\"', R + ' CDB \"$VV_SH\"'])\n"
           # a copy with a further dependency (the copy tool records its argv)
           "copy_file('cpx.txt', source_file('d1.txt'), extra_deps=[envstep])")
 
@@ -127,7 +132,8 @@ def compare(arg):
                                'ninja': {'present': False},
                                'compdb': {'argv': []}, 'note': c['out']})
                 return events
-        goals = ['all', 'envchain', 'envlines', 'envstep.txt', 'cpx.txt'] + [
+        goals = ['all', 'envchain', 'envlines', 'envstep.txt', 'cpx.txt',
+                 'cdstep', 'shvar'] + [
             d['name'] for d in decls if d['kind'] in ('alias', 'cmd')] + \
             [r.outs[n] for n in sorted(runs['make'].outs)] + ['tests']
         interm = {'.o', '.d', '.stamp', '.dir'}
